@@ -28,6 +28,9 @@ pub enum Post {
     /// the target is changed (the link reads other bytes now), then the original bytes are stored
     /// through an ordinary write: that write succeeds and the entry reads back again
     ModifyThenWriteSame,
+    /// the entry is removed through the cache in every way there is (remove_hash, full removal
+    /// of the key, clear): the link goes, the user's file stays as it is
+    RemoveThroughCache,
 }
 
 #[derive(Clone, Debug, Serialize, Deserialize)]
@@ -61,7 +64,7 @@ impl Engine for C19 {
         "link_to / link_to_hash / WriteOpts::link_to* (sync and async, both builds) over target contents of 0 B, around the 8-byte probe and the 16 KiB read buffer, and larger; \
          target given absolute or relative (relative cases run in a driver process whose working directory is 0-3 levels below the sandbox root); 0-3 partial reads through the linker \
          before commit; the address may already exist as regular content; declared size / integrity matching or not; after linking the target is left alone, modified in place, \
-         truncated, removed or replaced. Oracle: returned address == model digest of the target; reads by key and by address, streams and metadata.size give the target's bytes / \
+         truncated, removed or replaced, or the entry is removed through the cache (remove_hash, full removal, clear: the user's file stays). Oracle: returned address == model digest of the target; reads by key and by address, streams and metadata.size give the target's bytes / \
          length as of link time; the content path is a symlink resolving to the target (or the untouched pre-existing regular file); no regular file holding the data appears under \
          the cache; target bytes, inode and mtime are unchanged by the library; after a post-link change reads give an integrity or I/O error, never other bytes; mismatching \
          declarations are rejected and nothing is mapped. Non-trivial = relative path, partial read, post-link change, or pre-existing address; distinct = distinct case"
@@ -84,7 +87,7 @@ impl Engine for C19 {
                         for fl in [Fl::Sync, Fl::Async] {
                             n += 1;
                             let pre_reads = if oneshot { vec![] } else { [vec![], vec![1], vec![7], vec![9, 20000], vec![len + 10], vec![usize::MAX], vec![3, usize::MAX], vec![usize::MAX - 1]][n % 8].clone() };
-                            let post = [Post::None, Post::Modify, Post::Truncate, Post::Remove, Post::Replace, Post::ModifyKeepMtime, Post::WriteSameTmpElsewhere, Post::ModifyThenWriteSame][(n / 2) % 8];
+                            let post = [Post::None, Post::Modify, Post::Truncate, Post::Remove, Post::Replace, Post::ModifyKeepMtime, Post::WriteSameTmpElsewhere, Post::ModifyThenWriteSame, Post::RemoveThroughCache][(n / 2) % 9];
                             let mut link = mk_link(if keyed { Some(0) } else { None }, relative, oneshot, ALGOS[n % 5], pre_reads, if n % 3 == 0 { Declare::Exact } else { Declare::None }, if n % 4 == 0 { IntegDecl::Correct } else { IntegDecl::None });
                             // the relative target spelled through a symlinked directory and `..`
                             link.dotdot_via_symlink = relative && (n / 4) % 2 == 1;
@@ -118,7 +121,7 @@ impl Engine for C19 {
             basic::link_spec(1, 1, true),
             gen::fl(),
             (0u8..4, prop::bool::weighted(0.35), prop::bool::weighted(0.2)),
-            prop_oneof![3 => Just(Post::None), 1 => Just(Post::Modify), 1 => Just(Post::Truncate), 1 => Just(Post::Remove), 1 => Just(Post::Replace), 1 => Just(Post::ModifyKeepMtime), 1 => Just(Post::WriteSameTmpElsewhere), 1 => Just(Post::ModifyThenWriteSame)],
+            prop_oneof![3 => Just(Post::None), 1 => Just(Post::Modify), 1 => Just(Post::Truncate), 1 => Just(Post::Remove), 1 => Just(Post::Replace), 1 => Just(Post::ModifyKeepMtime), 1 => Just(Post::WriteSameTmpElsewhere), 1 => Just(Post::ModifyThenWriteSame), 1 => Just(Post::RemoveThroughCache)],
             vec(prop_oneof![Just(1usize), 1usize..9, 9usize..20000], 0..3),
         )
             .prop_map(|(blob, mut link, fl, (cwd_depth, relative, preexisting), post, pre)| {
@@ -169,6 +172,12 @@ impl Engine for C19 {
         // the target, created by the harness before the call
         let target = ctx.target_path(0);
         std::fs::write(&target, &data[..]).map_err(|e| format!("INFRA: {e}"))?;
+        if hash_of(c) % 3 == 0 {
+            // a file its owner made read-only
+            use std::os::unix::fs::PermissionsExt;
+            std::fs::set_permissions(&target, std::fs::Permissions::from_mode(0o444)).map_err(|e| format!("INFRA: {e}"))?;
+            st.class("read_only_target");
+        }
         let tmeta0 = std::fs::metadata(&target).map_err(|e| format!("INFRA: {e}"))?;
         let step = Step { op: Op::LinkTo(c.link.clone()), fl: c.fl };
         let what = format!("{:?} [{:?}] target of {} bytes, cwd depth {}", c.link, c.fl, data.len(), c.cwd_depth);
@@ -219,6 +228,9 @@ impl Engine for C19 {
             if m.ino() != tmeta0.ino() || m.mtime() != tmeta0.mtime() || m.mtime_nsec() != tmeta0.mtime_nsec() || m.len() != tmeta0.len() {
                 return Err(format!("{what}: {when}: the target's inode / mtime / size changed"));
             }
+            if m.mode() != tmeta0.mode() || m.uid() != tmeta0.uid() {
+                return Err(format!("{what}: {when}: the target's mode / owner changed ({:o} -> {:o})", tmeta0.mode(), m.mode()));
+            }
             Ok(())
         };
         st.eval(1);
@@ -252,7 +264,7 @@ impl Engine for C19 {
         // post-link change of the target
         if c.post != Post::None && linked_ok {
             // (from here on it is the harness that changes the user's file)
-            if !matches!(c.post, Post::WriteSameTmpElsewhere) {
+            if !matches!(c.post, Post::WriteSameTmpElsewhere | Post::RemoveThroughCache) {
                 model.live_targets.clear();
             }
             match c.post {
@@ -321,6 +333,28 @@ impl Engine for C19 {
                     // the changed file is the user's: the write must not have put the old bytes back into it
                     if std::fs::read(&target).map(|x| x != b).unwrap_or(true) {
                         return Err(format!("{what}: an ordinary write of the linked bytes changed the user's (modified) file"));
+                    }
+                }
+                Post::RemoveThroughCache => {
+                    let n = hash_of(c);
+                    let mut steps = vec![Step { op: Op::RemoveHash { addr }, fl: c.fl }];
+                    if c.link.key.is_some() {
+                        // (linked again first when the removal above took the link away)
+                        steps.push(Step { op: Op::LinkTo(c.link.clone()), fl: c.fl });
+                        steps.push(Step { op: Op::RemoveOpts { key: 0, fully: true }, fl: if n % 2 == 0 { Fl::Sync } else { Fl::Async } });
+                    }
+                    if !c.link.relative {
+                        steps.push(Step { op: Op::LinkTo(c.link.clone()), fl: c.fl });
+                    }
+                    steps.push(Step { op: Op::Clear, fl: if n % 4 < 2 { Fl::Sync } else { Fl::Async } });
+                    for s in steps {
+                        if matches!(s.op, Op::LinkTo(_)) && c.link.relative {
+                            continue;
+                        }
+                        let r = run_step(&ctx, &s);
+                        st.eval(1);
+                        model.step(&ctx, &s, &r.out, r.t0, r.t1).map_err(|e| format!("{what}: removing the linked entry through the cache: {} -> {e}", s.op.name()))?;
+                        check_target(&format!("after {} of the linked entry", s.op.name()))?;
                     }
                 }
                 Post::None => {}
